@@ -144,6 +144,22 @@ def icode_siblings(st, rng, chain=None):
     return mk_structure(out)
 
 
+def split_residue(st, rng):
+    """one residue's atom records are not contiguous: its second half is listed after the following residue, so the
+    structure holds two entries with the same identifiers (what the reader builds from such a file); None when there
+    is no suitable residue"""
+    rs = list(st.residues)
+    cand = [i for i in range(len(rs) - 1) if len(rs[i].atoms) >= 6]
+    if not cand:
+        return None
+    i = rng.choice(cand)
+    r = rs[i]
+    k = rng.randint(2, len(r.atoms) - 2)
+    first = mk_residue(r, list(r.atoms[:k]))
+    second = mk_residue(r, list(r.atoms[k:]))
+    return mk_structure(rs[:i] + [first, rs[i + 1], second] + rs[i + 2:])
+
+
 # ----------------------------------------------------------------------------- rigid motions
 def quat_rotation(rng):
     """uniform random rotation matrix from a normalised Gaussian quaternion"""
@@ -278,7 +294,7 @@ def residue_index(st):
     return out
 
 
-def well_formed(st):
+def well_formed(st, allow_repeated_identity=False):
     """distinct residue identities, numbers present, atom names without separators or outer blanks"""
     seen = set()
     for r in st.residues:
@@ -286,7 +302,7 @@ def well_formed(st):
             return False
         k = (r.model, r.label, r.auth)
         k2 = (r.model, r.chain, r.number, r.icode or " ")
-        if k in seen or k2 in seen:
+        if (k in seen or k2 in seen) and not allow_repeated_identity:
             return False
         seen.add(k)
         seen.add(k2)
